@@ -4,7 +4,7 @@
    as a stable insertion sort, the partTriInds loops, the table construction, the renumbering
    loop; GetSegmentation; NiShape::ReorderTriangles) and the re-fit of Geom/GeomModel.v. *)
 From NiflyVerif Require Import Res UtilModel UtilSpec EraseProofs GeomModel SegModel GeomBase GeomSpec
-  SegSort SegProofs RefitProofs RefitLabels.
+  SegSort SegProofs RefitProofs RefitLabels SegRecords SseRange.
 From Coq Require Import Sorted Permutation.
 Local Open Scope N_scope.
 
@@ -199,4 +199,154 @@ Proof.
   split; [repeat constructor; discriminate|].
   split; [|split; reflexivity].
   unfold valid_labels. repeat constructor; cbn; try (left; reflexivity); right; intuition.
+Qed.
+
+(* ---- what the get/set API carries besides ids and labels: per sub-segment the userSlotID and the
+   (material, extraData) token, through subSegmentData.dataRecords, and the ssf file name.
+   [inf_data] lists, segment by segment and in order, the (userSlotID, data token) of every
+   sub-segment of an info. Hypotheses as for C17_get_set_labels.
+   For ANY user slots: what GetSegmentation returns is what it reads ([rec_read]: a stored slot
+   below 30 is reported as 0) from the records SetSegmentation stored ([subrecs]: a slot below 30 is
+   replaced by the running sub-segment number 1, 2, ... of its segment), in order; the ssf name comes
+   back unchanged. *)
+Theorem C17_set_get_records_general : forall b inf labels,
+  NoDup (inf_ids (inf_segs inf)) -> Forall (fun i => (0 <= i)%Z) (inf_ids (inf_segs inf)) ->
+  valid_labels (inf_ids (inf_segs inf)) labels -> (labels <> [] -> inf_segs inf <> []) ->
+  vlen labels = bs_nt b -> vlen (bs_tris b) = bs_nt b -> 3 * bs_nt b < 4294967296 ->
+  (Z.of_nat (ids_total (inf_segs inf)) < 2147483648)%Z ->
+  exists b' inf' L, set_segmentation b inf labels = Ok b' /\ get_segmentation b' = Ok (inf', L) /\
+    inf_data (inf_segs inf') = map (fun s => map rec_read (subrecs (gi_subs s) 1)) (inf_segs inf) /\
+    inf_ssf inf' = inf_ssf inf.
+Proof. exact set_get_records_general. Qed.
+Print Assumptions C17_set_get_records_general.
+
+(* the well-formedness the C++ needs: in every segment fewer than 30 sub-segments carry a user slot
+   below 30 (their running numbers must stay below 30 to be told apart from real slots). Then the
+   records read back are the records set, in order, with the documented normalisation of the slot
+   ([slot_norm]: below 30 -> 0, otherwise unchanged; material/extraData untouched). *)
+Theorem C17_set_get_records : forall b inf labels,
+  NoDup (inf_ids (inf_segs inf)) -> Forall (fun i => (0 <= i)%Z) (inf_ids (inf_segs inf)) ->
+  valid_labels (inf_ids (inf_segs inf)) labels -> (labels <> [] -> inf_segs inf <> []) ->
+  vlen labels = bs_nt b -> vlen (bs_tris b) = bs_nt b -> 3 * bs_nt b < 4294967296 ->
+  (Z.of_nat (ids_total (inf_segs inf)) < 2147483648)%Z ->
+  Forall (fun s => low_count (gi_subs s) < 30) (inf_segs inf) ->
+  exists b' inf' L, set_segmentation b inf labels = Ok b' /\ get_segmentation b' = Ok (inf', L) /\
+    inf_data (inf_segs inf') = map (map slot_norm) (inf_data (inf_segs inf)) /\
+    inf_ssf inf' = inf_ssf inf.
+Proof. exact set_get_records. Qed.
+Print Assumptions C17_set_get_records.
+
+(* ... and literally equal when the slots handed in are 0 or at least 30 *)
+Theorem C17_set_get_records_exact : forall b inf labels,
+  NoDup (inf_ids (inf_segs inf)) -> Forall (fun i => (0 <= i)%Z) (inf_ids (inf_segs inf)) ->
+  valid_labels (inf_ids (inf_segs inf)) labels -> (labels <> [] -> inf_segs inf <> []) ->
+  vlen labels = bs_nt b -> vlen (bs_tris b) = bs_nt b -> 3 * bs_nt b < 4294967296 ->
+  (Z.of_nat (ids_total (inf_segs inf)) < 2147483648)%Z ->
+  Forall (fun s => low_count (gi_subs s) < 30) (inf_segs inf) ->
+  Forall (fun s => Forall (fun u => si_slot u = 0 \/ 30 <= si_slot u) (gi_subs s)) (inf_segs inf) ->
+  exists b' inf' L, set_segmentation b inf labels = Ok b' /\ get_segmentation b' = Ok (inf', L) /\
+    inf_data (inf_segs inf') = inf_data (inf_segs inf) /\ inf_ssf inf' = inf_ssf inf.
+Proof. exact set_get_records_exact. Qed.
+Print Assumptions C17_set_get_records_exact.
+
+(* the ill-formed branch of the size test: a label list without one entry per triangle leaves the
+   shape (triangles, tables, records) exactly as it was *)
+Theorem C17_set_seg_size_mismatch : forall b inf labels,
+  vlen labels <> bs_nt b -> set_segmentation b inf labels = Ok b.
+Proof. exact set_segmentation_size_mismatch. Qed.
+Print Assumptions C17_set_seg_size_mismatch.
+
+(* the ill-formed branch of the slot rule: with 30 sub-segments of user slot 0 in one segment (all
+   other hypotheses hold) the 30th is stored under the number 30 and read back as the real slot 30.
+   Replayed on the implementation by the check (case "records-30"): it reads 30 as well. *)
+Theorem C17_set_get_records_refuted :
+  exists b inf labels b' inf' L,
+    NoDup (inf_ids (inf_segs inf)) /\ Forall (fun i => (0 <= i)%Z) (inf_ids (inf_segs inf)) /\
+    valid_labels (inf_ids (inf_segs inf)) labels /\ vlen labels = bs_nt b /\ vlen (bs_tris b) = bs_nt b /\
+    Forall (fun s => low_count (gi_subs s) = 30) (inf_segs inf) /\
+    set_segmentation b inf labels = Ok b' /\ get_segmentation b' = Ok (inf', L) /\
+    inf_data (inf_segs inf) = [repeat (0, 7) 30] /\
+    inf_data (inf_segs inf') = [repeat (0, 7) 29 ++ [(30, 7)]].
+Proof. exact set_get_records_refuted. Qed.
+Print Assumptions C17_set_get_records_refuted.
+
+(* ---- the SSE-style segment table (BSSubIndexTriShape::segments: index, numTris) under the re-fit.
+   [sse_tile 0 segs nt]: the segments are contiguous and in order from triangle 0 to triangle nt
+   (index = 3 * first triangle). If the table tiles the triangle list before a vertex deletion, it
+   tiles the new triangle list afterwards; in particular every segment's index is a multiple of 3
+   and its range [index/3, index/3 + numTris) lies inside the new triangle list, and the counts sum
+   to the new triangle count (C17_sse_tile_facts). *)
+Theorem C17_sse_refit_keeps_ranges : forall b idx,
+  sorted_lt idx -> bs_kind b = BSSubIndex -> bs_core_wf b = true -> seg_tables_wf b = true ->
+  sse_tile 0 (bs_sse b) (bs_nt b) -> 3 * bs_nt b < 4294967296 ->
+  exists b', bs_delete b idx = Ok b' /\
+    bs_tris b' = tris_spec idx (bs_tris b) /\ bs_nt b' = vlen (bs_tris b') /\
+    bs_ssen b' = vlen (bs_sse b') /\
+    sse_tile 0 (bs_sse b') (bs_nt b') /\
+    Forall (fun s => sd_index s mod 3 = 0 /\ sd_index s / 3 + sd_num s <= bs_nt b') (bs_sse b').
+Proof. exact bs_sits_delete_sse_ranges. Qed.
+Print Assumptions C17_sse_refit_keeps_ranges.
+
+Theorem C17_sse_tile_facts : forall p segs e, sse_tile p segs e ->
+  Forall (fun s => sd_index s mod 3 = 0 /\ p <= sd_index s / 3 /\ sd_index s / 3 + sd_num s <= e) segs /\
+  p + fold_right (fun s a => sd_num s + a) 0 segs = e.
+Proof. exact (fun p segs e H => conj (sse_tile_in_range p segs e H) (sse_tile_sum p segs e H)). Qed.
+Print Assumptions C17_sse_tile_facts.
+
+(* without the tiling hypothesis the code does NOT keep the ranges inside the triangle list (the
+   start of the first segment is never re-fitted; a dropped triangle inside two overlapping ranges
+   is subtracted from both). Two witnesses, both replayed on the implementation by the check
+   (cases "sse-front-gap", "sse-overlap"): every segment lies inside the triangle list before the
+   deletion and one leaves it afterwards. *)
+Theorem C17_sse_refit_ranges_refuted :
+  exists b idx b',
+    sorted_lt idx /\ bs_kind b = BSSubIndex /\ bs_core_wf b = true /\ seg_tables_wf b = true /\
+    3 * bs_nt b < 4294967296 /\
+    sse_in_range (bs_nt b) (bs_sse b) = true /\
+    bs_delete b idx = Ok b' /\
+    bs_nt b' = 5 /\ bs_sse b' = [mkSsegd 6 4] /\
+    sse_in_range (bs_nt b') (bs_sse b') = false.
+Proof. exact sse_refit_ranges_refuted. Qed.
+Print Assumptions C17_sse_refit_ranges_refuted.
+
+Theorem C17_sse_refit_overlap_refuted :
+  exists b idx b',
+    sorted_lt idx /\ bs_core_wf b = true /\ seg_tables_wf b = true /\
+    sse_in_range (bs_nt b) (bs_sse b) = true /\
+    bs_delete b idx = Ok b' /\
+    bs_nt b' = 5 /\ bs_sse b' = [mkSsegd 0 3; mkSsegd 9 3] /\
+    sse_in_range (bs_nt b') (bs_sse b') = false.
+Proof. exact sse_refit_overlap_refuted. Qed.
+Print Assumptions C17_sse_refit_overlap_refuted.
+
+(* ---- non-vacuity of the new hypotheses. Records: the witness info with user slots 5 (below 30:
+   comes back as 0) and 31 (a real slot: comes back as 31), data tokens 7 and 8 unchanged. *)
+Definition C17_w_inf2 : seginf :=
+  mkSeginf [mkSeginfo 0 [mkSubinfo 1 5 7; mkSubinfo 2 31 8]; mkSeginfo 3 []] 9.
+
+Definition data_of (r : res (seginf * list Z)) : list (list (N * tok)) * tok :=
+  match r with Ok x => (inf_data (inf_segs (fst x)), inf_ssf (fst x)) | _ => ([], 0) end.
+
+Example C17_records_example :
+  Forall (fun s => low_count (gi_subs s) < 30) (inf_segs C17_w_inf2) /\
+  exists b, set_segmentation C17_w_shape C17_w_inf2 C17_w_labels = Ok b /\
+    sn_recs (bs_segn b) = [mkSegrec 0 0; mkSegrec 1 7; mkSegrec 31 8; mkSegrec 1 0] /\
+    data_of (get_segmentation b) = ([[(0, 7); (31, 8)]; []], 9).
+Proof.
+  split; [repeat constructor|].
+  eexists. split; [vm_compute; reflexivity|]. split; vm_compute; reflexivity.
+Qed.
+
+(* SSE: the witness shape with the table 0..1 | 2..3 | 4..5; deleting vertex 15 (the last triangle)
+   gives 0..1 | 2..3 | 4..4 on five triangles *)
+Example C17_sse_example :
+  let b := mkBs BSSubIndex 18 (nseq 18) 6 C17_w_tris [] [] 0 0 0 0
+                (mkSegmentation 0 0 0 [] 0 0 [] [] 0) 3 [mkSsegd 0 2; mkSsegd 6 2; mkSsegd 12 2] in
+  sse_tile 0 (bs_sse b) (bs_nt b) /\ bs_core_wf b = true /\ seg_tables_wf b = true /\
+  exists b', bs_delete b [15] = Ok b' /\ bs_nt b' = 5 /\
+             bs_sse b' = [mkSsegd 0 2; mkSsegd 6 2; mkSsegd 12 1].
+Proof.
+  cbv zeta. split; [cbn [bs_sse bs_nt]; repeat (constructor; [reflexivity|]); constructor|].
+  split; [reflexivity|]. split; [reflexivity|].
+  eexists. split; [vm_compute; reflexivity|]. split; vm_compute; reflexivity.
 Qed.
